@@ -28,10 +28,15 @@ static const int enc_bytes [] = { 1, 1, 2, 3, 4, 4, 8, 1, 1 } ;
 static const int enc_width [] = { 8, 8, 16, 24, 32, 0, 0, 0, 0 } ;
 static Enc enc_of_sub (int sub) { for (int e = 0 ; e < E_COUNT ; e++) if (enc_sub [e] == sub) return (Enc) e ; return E_COUNT ; }
 
-struct Settings { bool norm_f = true, norm_d = true, clip = false, scale_fir = false, scale_ifw = false ; } ;
-static std::string set_str (const Settings &s) { char b [64] ; snprintf (b, sizeof (b), "nf%d nd%d clip%d fir%d ifw%d", s.norm_f, s.norm_d, s.clip, s.scale_fir, s.scale_ifw) ; return b ; }
+struct Settings { bool norm_f = true, norm_d = true, clip = false, scale_fir = false, scale_ifw = false, toggle = false ; } ;	// toggle: every setting is first set to the opposite value, then to the wanted one
+static std::string set_str (const Settings &s) { char b [64] ; snprintf (b, sizeof (b), "nf%d nd%d clip%d fir%d ifw%d tg%d", s.norm_f, s.norm_d, s.clip, s.scale_fir, s.scale_ifw, s.toggle) ; return b ; }
 static void apply (SNDFILE *f, const Settings &s)
-{	sf_command (f, SFC_SET_NORM_FLOAT, nullptr, s.norm_f) ; sf_command (f, SFC_SET_NORM_DOUBLE, nullptr, s.norm_d) ;
+{	if (s.toggle)
+	{	sf_command (f, SFC_SET_NORM_FLOAT, nullptr, !s.norm_f) ; sf_command (f, SFC_SET_NORM_DOUBLE, nullptr, !s.norm_d) ; sf_command (f, SFC_SET_CLIPPING, nullptr, !s.clip) ;
+		sf_command (f, SFC_SET_SCALE_FLOAT_INT_READ, nullptr, !s.scale_fir) ; sf_command (f, SFC_SET_SCALE_INT_FLOAT_WRITE, nullptr, !s.scale_ifw) ;
+		sf_command (f, SFC_SET_SCALE_FLOAT_INT_READ, nullptr, s.scale_fir) ; sf_command (f, SFC_SET_SCALE_INT_FLOAT_WRITE, nullptr, s.scale_ifw) ;
+	}
+	sf_command (f, SFC_SET_NORM_FLOAT, nullptr, s.norm_f) ; sf_command (f, SFC_SET_NORM_DOUBLE, nullptr, s.norm_d) ;
 	sf_command (f, SFC_SET_CLIPPING, nullptr, s.clip) ;
 	if (s.scale_fir) sf_command (f, SFC_SET_SCALE_FLOAT_INT_READ, nullptr, SF_TRUE) ;
 	if (s.scale_ifw) sf_command (f, SFC_SET_SCALE_INT_FLOAT_WRITE, nullptr, SF_TRUE) ;
@@ -330,7 +335,7 @@ static void task_container (const FmtEntry &fe)
 
 // ---- replay: tasks are re-run as a whole
 static Enc enc_from (const std::string &s) { for (int e = 0 ; e < E_COUNT ; e++) if (s == enc_name [e]) return (Enc) e ; return E_COUNT ; }
-static Settings set_from (const std::string &s) { Settings st ; int a, b, c, d, e ; if (sscanf (s.c_str (), "nf%d nd%d clip%d fir%d ifw%d", &a, &b, &c, &d, &e) == 5) { st.norm_f = a ; st.norm_d = b ; st.clip = c ; st.scale_fir = d ; st.scale_ifw = e ; } return st ; }
+static Settings set_from (const std::string &s) { Settings st ; int a, b, c, d, e ; int g = 0 ; if (sscanf (s.c_str (), "nf%d nd%d clip%d fir%d ifw%d tg%d", &a, &b, &c, &d, &e, &g) >= 5) { st.norm_f = a ; st.norm_d = b ; st.clip = c ; st.scale_fir = d ; st.scale_ifw = e ; st.toggle = g ; } return st ; }
 static Result run_case (const Case &c)
 {	g_failed = false ; ctx.have_failure = false ;
 	std::string task = c.gets ("task") ;
@@ -373,7 +378,7 @@ int main (int argc, char **argv)
 			if (fir && !(e == E_F32 || e == E_F64)) continue ;	// the command only exists for float files
 			sets.push_back (s) ;
 		}
-		for (auto &s : sets) if (mine ()) task_read ((Enc) e, be != 0, T, s) ;
+		for (auto &s : sets) for (int tg = 0 ; tg < 2 ; tg++) if (mine ()) { Settings s2 = s ; s2.toggle = tg ; task_read ((Enc) e, be != 0, T, s2) ; }
 		if (e >= E_ULAW) continue ;	// G.711 write side: C20
 		std::vector<Settings> wsets ;
 		for (int nf = 0 ; nf < 2 ; nf++) for (int nd = 0 ; nd < 2 ; nd++) for (int cl = 0 ; cl < 2 ; cl++) for (int ifw = 0 ; ifw < 2 ; ifw++)
@@ -381,7 +386,7 @@ int main (int argc, char **argv)
 			if (ifw && !(e == E_F32 || e == E_F64)) continue ;
 			wsets.push_back (s) ;
 		}
-		for (auto &s : wsets) if (mine ()) task_write ((Enc) e, be != 0, T, s) ;
+		for (auto &s : wsets) for (int tg = 0 ; tg < 2 ; tg++) if (mine ()) { Settings s2 = s ; s2.toggle = tg ; task_write ((Enc) e, be != 0, T, s2) ; }
 		ctx.flush () ;
 	}
 	for (auto &fe : catalogue ()) { if (g_failed) break ; if (mine ()) task_container (fe) ; }
